@@ -5,6 +5,16 @@ Local Open Scope Z_scope.
 Definition search_factor : Z := 4.
 (* util.go readerContainsAny: halflen := bufflen / D *)
 Definition search_half_div : Z := 2.
+(* iofs.go IOFS.ReadDir: 1 iff it rejects names that are not fs.ValidPath *)
+Definition iofs_readdir_validates : Z := 0.
+(* iofs.go IOFS.Stat: 1 iff IOFS has its own Stat that rejects names that are not fs.ValidPath *)
+Definition iofs_stat_validates : Z := 0.
+(* iofs.go IOFS.Sub: 1 iff it rejects directories that are not fs.ValidPath *)
+Definition iofs_sub_validates : Z := 0.
+(* iofs.go IOFS.Sub: 1 iff Sub(".") returns the receiver itself *)
+Definition iofs_sub_dot_self : Z := 0.
+(* iofs.go FromIOFS.OpenFile: permission error iff flag&MASK != 0 (0 = the flag is ignored) *)
+Definition fromiofs_openfile_mask : Z := 0.
 (* path.go Walk: 1 iff a final filepath.SkipDir is converted into nil (as path/filepath.Walk does) *)
 Definition walk_skipdir_to_nil : Z := 1.
 (* sftpfs/sftp.go MkdirAll: 1 iff the fast path returns an error for an existing non-directory *)
